@@ -72,7 +72,8 @@ func (g *G) testsFor(axis string) []xast.NodeTest {
 		}
 	}
 	if axis == "attribute" {
-		return append(ts, xast.NodeTest{Kind: "wild"}, xast.NodeTest{Kind: "node"})
+		// text()/comment() on the attribute axis are legal and select nothing
+		return append(ts, xast.NodeTest{Kind: "wild"}, xast.NodeTest{Kind: "node"}, xast.NodeTest{Kind: "text"}, xast.NodeTest{Kind: "comment"})
 	}
 	return append(ts, xast.NodeTest{Kind: "wild"}, xast.NodeTest{Kind: "node"}, xast.NodeTest{Kind: "text"}, xast.NodeTest{Kind: "comment"})
 }
